@@ -280,6 +280,9 @@ class _VersionIndependentUnmarshaller:
         return self.r_ref(int(unpack("<i", self.fp.read(4))[0]), save_ref)
 
     def t_long(self, save_ref, bytes_for_s=False):
+        # Python 2's "long" type (shown with an "L" suffix) exists only in
+        # Python 2 bytecode; in Python 3 bytecode this is a plain int.
+        long = globals()["long"] if magic_int2tuple(self.magic_int) < (3, 0) else int
         n = unpack("<i", self.fp.read(4))[0]
         if n == 0:
             return self.r_ref(long(0), save_ref)
